@@ -9,8 +9,15 @@ commands
         -> {"request":{...}, "result": {...}|null, "exc":[cls,msg]|null, "data": executed data, "obs": {...},
             "corruptions": [...]}
   {"cmd":"eval","code": "..."}  -> {"value": repr}   (small probes by property modules; code sees `pkg`, `mods`)
+<<<<<<< HEAD
   {"cmd":"call_args","method":py_name,"args":{kw: encoded},"intended":{var: json}}   (C03/C07)
         -> {"request", "exc", "sent": {"coerced"|"errors","rec"}, "intended": {...}, "log_construct", "log_call"}
+=======
+  "call" with "frag_map": {result class name: [fragment class names]} additionally walks the returned object and
+        the response in parallel (C08): every object of a listed class must be an instance of each fragment class
+        (looked up in the fragments module) and that class alone must validate the same sub-payload
+        -> "frag": {"checked": n, "problems": [...]}
+>>>>>>> c08c09
 
 The reference executor is graphql-core `execute_sync` on the query text the client SENT, with resolvers scripted
 by a plan: {"k": int (rotates runtime types at abstract positions), "null": float prob, "lens": [list lengths],
@@ -237,6 +244,37 @@ def observe(obj, data, path, problems, stats):
         return  # parsed custom scalar: equality is C07's business
     if obj != data or (isinstance(data, bool) != isinstance(obj, bool)):
         problems.append({"path": path, "what": f"value {obj!r} != {data!r}"})
+
+
+# ----------------------------------------------------------------------------- fragment instances (C08)
+def frag_walk(obj, data, path, frag_map, fragments_mod, problems, stats):
+    from pydantic import BaseModel
+
+    if isinstance(obj, list) and isinstance(data, list):
+        for i, (o, d) in enumerate(zip(obj, data)):
+            frag_walk(o, d, path + [i], frag_map, fragments_mod, problems, stats)
+        return
+    if not isinstance(obj, BaseModel) or not isinstance(data, dict):
+        return
+    cname = type(obj).__name__
+    stats["objects"] = stats.get("objects", 0) + 1
+    for fname in frag_map.get(cname, []):
+        fcls = getattr(fragments_mod, fname, None) if fragments_mod else None
+        stats["checked"] = stats.get("checked", 0) + 1
+        if fcls is None:
+            problems.append({"path": path, "class": cname, "fragment": fname, "what": "fragment class missing from the fragments module"})
+            continue
+        if not isinstance(obj, fcls):
+            problems.append({"path": path, "class": cname, "fragment": fname, "what": "returned object is not an instance of the fragment class"})
+        try:
+            fcls.model_validate(data)
+        except BaseException as exc:  # noqa
+            problems.append({"path": path, "class": cname, "fragment": fname,
+                             "what": f"fragment class alone rejects the sub-payload: {type(exc).__name__}: {str(exc)[:200]}"})
+    for name, f in type(obj).model_fields.items():
+        key = f.alias or name
+        if key in data:
+            frag_walk(getattr(obj, name), data[key], path + [key], frag_map, fragments_mod, problems, stats)
 
 
 # ----------------------------------------------------------------------------- corruptions (C05)
@@ -478,6 +516,12 @@ def cmd_call(req):
             problems, stats = [], {}
             observe(result, box["data"], [], problems, stats)
             out["obs"] = {"problems": problems[:10], "stats": stats}
+        if req.get("frag_map") is not None and box.get("data") is not None:
+            problems, stats = [], {}
+            fm = dict(req["frag_map"])
+            frag_walk(result, box["data"], [], fm, STATE["mods"].get(req.get("fragments_module", "fragments")),
+                      problems, stats)
+            out["frag"] = {"problems": problems[:10], "stats": stats}
     else:
         out["result"] = {"class": type(result).__name__, "repr": repr(result)[:500]}
     if req.get("corrupt") and box.get("data") is not None and not box.get("exec_errors"):
